@@ -31,10 +31,13 @@ fn task_gen(tier: Tier, exact_only: bool) -> TaskGen {
             tmax: tier.pick(30, 40),
             never: !exact_only,
             plateau_end: true,
-            plain_curves: false,
-            derived: false,
+            // plain (repeating) curves and derived curves over-approximate, which is fine for safety;
+            // the tightness check uses exact curves only
+            plain_curves: !exact_only,
+            derived: !exact_only,
             acp: false,
             loose: false,
+            poisson: false,
             depth: if exact_only { 0 } else { 1 },
         },
         cmax: 8,
